@@ -56,6 +56,24 @@ def loadTable : IO (List (String × List String)) := do
 def lookup (tbl : List (String × List String)) (k : String) : Option (List String) :=
   (tbl.find? (·.1 = k)).map (·.2)
 
+/-- `next=a,b` / `next=-` -/
+def parseNext? (t : String) : Option (List String) :=
+  if t.startsWith "next=" then
+    let r := (t.drop 5).toString
+    some (if r = "-" then [] else r.splitOn ",")
+  else none
+
+def fwOfKey (k : String) : String := ((k.splitOn "/").head?).getD k
+
+/-- `next=… <body>` → program -/
+def parseProg? (k : String) (ts : List String) : Option Prog :=
+  match ts with
+  | n :: ir =>
+    match parseNext? n, parseBody ir with
+    | some via, some body => some ⟨k, fwOfKey k, via, body⟩
+    | _, _ => none
+  | [] => none
+
 def modelStep (tbl : List (String × List String)) (ts : List String) : Option String :=
   match ts with
   | ["conf", k, b, h] =>
@@ -68,8 +86,8 @@ def modelStep (tbl : List (String × List String)) (ts : List String) : Option S
   | ["trace", k, b, h] =>
     match parseScenario? b h, lookup tbl k with
     | some sc, some ir =>
-      match parseBody ir with
-      | some body => some (showTrace (observable (runProg sc body)))
+      match parseProg? k ir with
+      | some p => some (showTrace (observable (p.run sc)))
       | none => some "unparsable-ir"
     | none, _ => some "bad-op"
     | _, none => some "gone"
@@ -77,13 +95,13 @@ def modelStep (tbl : List (String × List String)) (ts : List String) : Option S
 
 def judgeConf (k : String) (sc : Scenario) (res : String) : String :=
   if res = "gone" then "?" else
-  match parseBody (toks res) with
+  match parseProg? k (toks res) with
   | none => "bad unparsable-ir"
-  | some body =>
-    let p : Prog := ⟨k, body⟩
+  | some p =>
     if conforms p sc then "ok"
     else if isKnown p then "known:" ++ k
-    else "bad trace=" ++ showTrace (runProg sc body)
+    else if !p.nextOk then "bad handler-call-kind-not-in-framework-table"
+    else "bad trace=" ++ showTrace (p.run sc)
 
 def judgeTrace (k : String) (sc : Scenario) (res : String) : String :=
   match parseTrace? res with
@@ -93,7 +111,7 @@ def judgeTrace (k : String) (sc : Scenario) (res : String) : String :=
     else
       -- a recorded finding explains exactly the trace its recorded body predicts
       match knownProgs.find? (·.key = k) with
-      | some kp => if observable (runProg sc kp.body) = observable tr then "known:" ++ k else "bad observed-trace-violates-contract"
+      | some kp => if observable (kp.run sc) = observable tr then "known:" ++ k else "bad observed-trace-violates-contract"
       | none => "bad observed-trace-violates-contract"
 
 def oracleStep (ts : List String) (line : String) : Option String :=
